@@ -568,8 +568,12 @@ pub fn break_tables(err: &[u8]) -> Vec<Vec<u8>> {
         // wording, category symbol — are free text
         let cut = |seg: &[u8]| -> Vec<u8> {
             let t = String::from_utf8_lossy(seg).to_string();
-            match (t.find('┌'), t.rfind('┘')) {
-                (Some(i), Some(j)) if i <= j => t[i..j + '┘'.len_utf8()].as_bytes().to_vec(),
+            // (any style of top-left / bottom-right corner)
+            match (t.find(|c| "┌╭┏╔".contains(c)), t.rfind(|c| "┘╯┛╝".contains(c))) {
+                (Some(i), Some(j)) if i <= j => {
+                    let w = t[j..].chars().next().map(|c| c.len_utf8()).unwrap_or(1);
+                    t[i..j + w].as_bytes().to_vec()
+                }
                 _ => Vec::new(),
             }
         };
